@@ -29,6 +29,7 @@ type own2state struct {
 	capturedParam map[*ssa.Parameter]bool
 	contentParam  map[*ssa.Parameter]bool
 	globals       map[*ssa.Global]ssa.Instruction
+	contentOnly   map[*ssa.Global]bool // only what is stored in the (map) variable is handed to meshes, not the map itself
 	callSites     map[*ssa.Function][]ssa.CallInstruction
 	contentSeen   map[ssa.Value]map[ssa.Instruction]bool
 	fieldParam    map[*ssa.Parameter]map[*types.Var]bool
@@ -54,7 +55,7 @@ type FieldHandoff struct {
 // Handoffs computes OWN-2. It must be called after Solve.
 func (o *Own) Handoffs() (hand []Handoff, globalViol []Sink, capturedGlobals []*ssa.Global) {
 	s := &own2state{o: o, captured: map[ssa.Value]map[ssa.Instruction]bool{}, capturedParam: map[*ssa.Parameter]bool{},
-		contentParam: map[*ssa.Parameter]bool{}, globals: map[*ssa.Global]ssa.Instruction{}, callSites: map[*ssa.Function][]ssa.CallInstruction{},
+		contentParam: map[*ssa.Parameter]bool{}, globals: map[*ssa.Global]ssa.Instruction{}, contentOnly: map[*ssa.Global]bool{}, callSites: map[*ssa.Function][]ssa.CallInstruction{},
 		contentSeen: map[ssa.Value]map[ssa.Instruction]bool{}, fieldParam: map[*ssa.Parameter]map[*types.Var]bool{}, fieldHandSeen: map[fhKey]bool{}}
 	o.own2 = s
 	for _, f := range o.Funcs {
@@ -130,18 +131,69 @@ func (o *Own) Handoffs() (hand []Handoff, globalViol []Sink, capturedGlobals []*
 	}
 	sort.Slice(capturedGlobals, func(i, j int) bool { return capturedGlobals[i].Pos() < capturedGlobals[j].Pos() })
 	for _, snk := range o.Sinks {
-		for r := range aliasRoots(snk.Base) {
-			if u, ok := r.(*ssa.UnOp); ok && u.Op == token.MUL {
-				if g, ok := u.X.(*ssa.Global); ok {
-					if _, is := s.globals[g]; is {
-						globalViol = append(globalViol, snk)
-					}
+		hit := false
+		for _, g := range s.globalsBehind(snk.Base, 0) {
+			if snk.Kind == "mapupdate" && s.contentOnly[g] {
+				// a new entry in a cache whose entries are handed out: no array a mesh holds is written
+				if u, ok := snk.Base.(*ssa.UnOp); ok && u.X == ssa.Value(g) {
+					continue
 				}
+			}
+			if _, is := s.globals[g]; is && !hit {
+				globalViol = append(globalViol, snk)
+				hit = true
 			}
 		}
 	}
 	o.HandoffSites = len(hand)
 	return
+}
+
+// globalsBehind: the package variables whose storage v may be (a window of): loaded from the variable, an element
+// of a map loaded from it, or the result of an analysed callee returning such a value.
+func (s *own2state) globalsBehind(v ssa.Value, depth int) []*ssa.Global {
+	var out []*ssa.Global
+	if depth > 3 {
+		return nil
+	}
+	loadOf := func(x ssa.Value) *ssa.Global {
+		if u, ok := x.(*ssa.UnOp); ok && u.Op == token.MUL {
+			if g, ok := u.X.(*ssa.Global); ok {
+				return g
+			}
+		}
+		return nil
+	}
+	for r := range aliasRoots(v) {
+		if g := loadOf(r); g != nil {
+			out = append(out, g)
+			continue
+		}
+		switch x := r.(type) {
+		case *ssa.Lookup:
+			if g := loadOf(x.X); g != nil && isMapT(x.X) {
+				out = append(out, g)
+			}
+		case *ssa.Extract:
+			if lk, ok := x.Tuple.(*ssa.Lookup); ok && x.Index == 0 && isMapT(lk.X) {
+				if g := loadOf(lk.X); g != nil {
+					out = append(out, g)
+				}
+			}
+		case *ssa.Call:
+			if ssau.Builtin(x) != "" {
+				continue
+			}
+			if callee := s.o.resolveCallee(x.Common()); callee != nil && s.o.inFuncs[callee] {
+				ssau.AllInstrs(callee, func(in ssa.Instruction) {
+					if ret, ok := in.(*ssa.Return); ok && len(ret.Results) == 1 {
+						out = append(out, s.globalsBehind(ret.Results[0], depth+1)...)
+					}
+				})
+			}
+		}
+	}
+	return out
 }
 
 func isAllocSite(v ssa.Value) bool {
@@ -193,6 +245,13 @@ func (s *own2state) mark(v ssa.Value, at ssa.Instruction) {
 	case *ssa.Call:
 		if ssau.Builtin(x) == "append" && len(x.Call.Args) >= 1 {
 			s.mark(x.Call.Args[0], at)
+		} else if callee := s.o.resolveCallee(x.Common()); callee != nil && s.o.inFuncs[callee] {
+			// what an analysed callee returns (a slice it keeps in a package variable, say) is what is handed over
+			ssau.AllInstrs(callee, func(in ssa.Instruction) {
+				if r, ok := in.(*ssa.Return); ok && len(r.Results) == 1 {
+					s.mark(r.Results[0], r)
+				}
+			})
 		}
 	case *ssa.Parameter:
 		if s.capturedParam[x] {
@@ -253,6 +312,7 @@ func (s *own2state) mark(v ssa.Value, at ssa.Instruction) {
 			if _, ok := s.globals[a]; !ok {
 				s.globals[a] = at
 			}
+			delete(s.contentOnly, a)
 		case *ssa.FreeVar:
 			// variable of the enclosing function: values stored into the cell there
 			fn := a.Parent()
@@ -382,6 +442,13 @@ func (s *own2state) markContent(m ssa.Value, at ssa.Instruction) {
 				if st, ok := r.(*ssa.Store); ok && st.Addr == a {
 					s.markContent(st.Val, at)
 				}
+			}
+		}
+		if g, ok := x.X.(*ssa.Global); ok && x.Op == token.MUL {
+			// the content of a map kept in a package variable is handed to a mesh
+			if _, ok := s.globals[g]; !ok {
+				s.globals[g] = at
+				s.contentOnly[g] = true
 			}
 		}
 	}
